@@ -235,7 +235,7 @@ class Evaluator:
 
     def _effect_call(self, call: ast.Call, env, ctx):
         """If `call` is an effect call return (conds, effect, value-atom) alternatives else None."""
-        if not self.effects_mode or ctx.depth != 0:
+        if not self.effects_mode or not ctx.fx:
             return None
         nm = _callname(call)
         short = nm.split(".")[-1]
@@ -274,9 +274,78 @@ class Evaluator:
         out = []
         for c, d in alts:
             if pnames is not None:
-                d = {(pnames[k] if isinstance(k, int) and k < len(pnames) else k): v for k, v in d.items()}
+                d = {(pnames.index(k) if (not isinstance(k, int)) and k in pnames else k): v for k, v in d.items()}
             out.append((c, ("call", short, recv, tuple(sorted(((str(k), as_term(v)) for k, v in d.items()), key=repr))),
                         Rat.atom(("ret", short, n))))
+        return out
+
+
+    # --------------------------------------------------- statement-level calls into helpers that have effects
+    def _stmt_helper_call(self, call: ast.Call, env, ctx):
+        """`helper(...)` / `x = self._helper(...)` / `return self._helper(...)` where the resolved helper itself performs
+        effects: execute its body with effect recording on, threading the effect list.  Returns None when not applicable,
+        else a list of (conds, env_after, value)."""
+        if not self.effects_mode or not ctx.fx or ctx.depth >= MAX_DEPTH:
+            return None
+        fv = None
+        try:
+            if isinstance(call.func, ast.Name):
+                fv = env[call.func.id] if call.func.id in env else self.global_name(call.func.id, ctx)
+            elif isinstance(call.func, ast.Attribute):
+                ra = self.ev(call.func.value, env, ctx)
+                if len(ra) != 1 or ra[0][0]:
+                    return None
+                fv = self.attr(ra[0][1], call.func.attr, ctx, call)
+        except Unreadable:
+            return None
+        if not isinstance(fv, FuncRef):
+            return None
+        f = fv.func
+        if f.qualname in self.extern or f.qualname in self.opaque or f.name in self.opaque or f.name in self.effect_calls:
+            return None
+        if not self._has_effects(f.node.body):
+            return None
+        # arguments
+        alts = [(frozenset(), [], {})]
+        for a in call.args:
+            alts = [(c | c2, pos + [v], kw) for c, pos, kw in alts for c2, v in self.ev(a, env, ctx)]
+        for k in call.keywords:
+            alts = [(c | c2, pos, dict(kw, **{k.arg: v})) for c, pos, kw in alts for c2, v in self.ev(k.value, env, ctx)]
+        params = f.params[1:] if (f.is_method or f.is_classmethod) else list(f.params)
+        out = []
+        for c, pos, kw in alts:
+            fenv: Dict[str, object] = {"$fx": env.get("$fx", ())}
+            same_self = f.is_method and (fv.selfv is None or _same_value(fv.selfv, sym("self"))) \
+                and (("self" not in env) or _same_value(env["self"], sym("self")))
+            if same_self:
+                # state remembered under a `self.<...>` text denotes the same location in a method of the same object
+                for k_, v_ in env.items():
+                    if _self_only_key(k_):
+                        fenv[k_] = v_
+            for p_ in f.params + f.kwonly:
+                if p_ == "self" and f.is_method:
+                    fenv[p_] = fv.selfv if fv.selfv is not None else sym("self")
+            for p_, v in zip(params, pos):
+                fenv[p_] = v
+            fenv.update(kw)
+            for p_ in params + f.kwonly:
+                if p_ not in fenv:
+                    dv = self._default(f, p_) if p_ in f.defaults else None
+                    fenv[p_] = dv if dv is not None else sym(p_)
+            self.inlined.append(f.qualname)
+            sub = Ctx(f, ctx.depth + 1, fv.selfcls or ctx.selfcls, fx=True)
+            for (c2, e2, r) in self.exec_block(f.node.body, [(c, fenv, None)], sub):
+                env_after = dict(env)
+                env_after["$fx"] = e2.get("$fx", ())
+                # state remembered by source text inside the helper is visible by the same text in the caller only
+                # for `self.<...>` locations of the same object
+                if same_self:
+                    for k_ in [k_ for k_ in env_after if _self_only_key(k_)]:
+                        del env_after[k_]
+                    for k_, v_ in e2.items():
+                        if _self_only_key(k_):
+                            env_after[k_] = v_
+                out.append((c2, env_after, r if r is not None else NONE))
         return out
 
     def _default(self, f: FuncInfo, p: str):
@@ -324,6 +393,15 @@ class Evaluator:
                         self._fx(e2, eff)
                         out.append((conds | c2, e2, None))
                     return out
+                hc = self._stmt_helper_call(st.value, env, ctx)
+                if hc is not None:
+                    out = []
+                    for c2, e2, val in hc:
+                        if isinstance(val, Raise):
+                            out.append((conds | c2, e2, val))
+                        else:
+                            out.append((conds | c2, e2, None))
+                    return out
                 nm = _callname(st.value)
                 if nm == "require":
                     out = []
@@ -335,7 +413,7 @@ class Evaluator:
                     return out
                 if nm in ("print", "logging.warning", "logging.info", "self.logger.info"):
                     return [(conds, env, None)]
-                if self.effects_mode and ctx.depth == 0:
+                if self.effects_mode and ctx.fx:
                     # other statement-level call: evaluate (pure helpers are inlined), record as an effect
                     out = []
                     for c2, v in self.ev(st.value, env, ctx):
@@ -344,6 +422,14 @@ class Evaluator:
                         out.append((conds | c2, e2, None))
                     return out
             raise Unreadable(f"expression statement {ast.unparse(st)[:60]} in {ctx.f.qualname}")
+        if isinstance(st, (ast.Assign, ast.AnnAssign, ast.Return, ast.Expr)) and self.effects_mode and ctx.fx \
+                and isinstance(getattr(st, "value", None), ast.IfExp) and self._has_effects([ast.Expr(value=st.value)]):
+            import copy as _copy
+            a, b = _copy.copy(st), _copy.copy(st)
+            a.value, b.value = st.value.body, st.value.orelse
+            lowered = ast.If(test=st.value.test, body=[a], orelse=[b])
+            ast.copy_location(lowered, st)
+            return self.exec_stmt(lowered, conds, env, ctx)
         if isinstance(st, (ast.Assign, ast.AnnAssign)):
             if isinstance(st, ast.AnnAssign):
                 if st.value is None:
@@ -362,6 +448,16 @@ class Evaluator:
                             self.bind(t, val, e2, ctx)
                         out.append((conds | c2, e2, None))
                     return out
+                hc = self._stmt_helper_call(st.value, env, ctx)
+                if hc is not None:
+                    for c2, e2, val in hc:
+                        if isinstance(val, Raise):
+                            out.append((conds | c2, e2, val))
+                            continue
+                        for t in targets:
+                            self.bind(t, val, e2, ctx)
+                        out.append((conds | c2, e2, None))
+                    return out
             for c2, v in self.ev(st.value, env, ctx):
                 if _contradict(conds | c2):
                     continue
@@ -373,7 +469,7 @@ class Evaluator:
         if isinstance(st, ast.Delete):
             e2 = dict(env)
             for t in st.targets:
-                if self.effects_mode and ctx.depth == 0:
+                if self.effects_mode and ctx.fx:
                     self._fx(e2, ("store", self._target_term(t, env, ctx), "del", None, None))
             return [(conds, e2, None)]
         if isinstance(st, ast.AugAssign):
@@ -397,6 +493,9 @@ class Evaluator:
                         self._fx(e2, eff)
                         out.append((conds | c2, e2, val))
                     return out
+                hc = self._stmt_helper_call(st.value, env, ctx)
+                if hc is not None:
+                    return [(conds | c2, e2, val) for c2, e2, val in hc]
             return [(conds | c2, env, v) for c2, v in self.ev(st.value, env, ctx) if not _contradict(conds | c2)]
         if isinstance(st, ast.If):
             clamp = self._clamp_idiom(st, env, ctx)
@@ -489,6 +588,73 @@ class Evaluator:
         kind = "min" if isinstance(t.ops[0], (ast.Gt, ast.GtE)) else "max"
         return a.targets[0].id, minmax(kind, [x, y])
 
+
+    # ---------------------------------------------------------------- canonical iteration
+    def iter_binding(self, iter_node, target, env, ctx):
+        """Canonical loop binding.  `for k, v in d.items()`, `for k in d` / `d.keys()` + `d[k]`, `for v in d.values()`,
+        `for i, x in enumerate(s)`, `for i in range(len(s))` all iterate the container `d` / `s`: the key (or index)
+        variable is loopvar(iter(d)) and the element is d[key].  Returns (it_term, bindings dict)."""
+        n = iter_node
+        form = "plain"
+        cont = n
+        if isinstance(n, ast.Call) and isinstance(n.func, ast.Attribute) and n.func.attr in ("items", "keys", "values") and not n.args:
+            form = n.func.attr
+            cont = n.func.value
+        elif isinstance(n, ast.Call) and isinstance(n.func, ast.Name) and n.func.id == "enumerate" and len(n.args) == 1:
+            form = "items"
+            cont = n.args[0]
+        elif isinstance(n, ast.Call) and isinstance(n.func, ast.Name) and n.func.id == "range" and len(n.args) == 1 \
+                and isinstance(n.args[0], ast.Call) and isinstance(n.args[0].func, ast.Name) and n.args[0].func.id == "len" \
+                and len(n.args[0].args) == 1:
+            form = "keys"
+            cont = n.args[0].args[0]
+        alts = self.ev(cont, env, ctx)
+        if len(alts) != 1 or alts[0][0]:
+            raise Unreadable("conditional iterable")
+        cv = alts[0][1]
+        if isinstance(cv, Seq) or isinstance(cv, Tup):
+            # iterating a literal / comprehension: elements are the loop variable itself
+            form = "plain" if form == "plain" else form
+        cterm = as_term(cv)
+        it_term = ("iter", cterm)
+        key = Rat.atom(("loopvar", it_term))
+        elem = Rat.atom(("idx", cterm, ("loopvar", it_term)))
+        binds = {}
+
+        def names_of(t):
+            return [x.id for x in ast.walk(t) if isinstance(x, ast.Name)]
+
+        if form == "items":
+            if isinstance(target, ast.Tuple) and len(target.elts) == 2 and isinstance(target.elts[0], ast.Name):
+                binds[target.elts[0].id] = key
+                self._bind_pattern(target.elts[1], elem, binds)
+            else:
+                raise Unreadable("loop target for items()/enumerate()")
+        elif form == "values":
+            self._bind_pattern(target, elem, binds)
+        elif form == "keys":
+            if not isinstance(target, ast.Name):
+                raise Unreadable("loop target for keys()")
+            binds[target.id] = key
+        else:
+            # plain `for x in c`: x is the key if c is used as a mapping (c[x]) in the body, else the element; both
+            # readings are represented by the same atom so that `c[x]` and the element stay distinct but canonical
+            if isinstance(target, ast.Name):
+                binds[target.id] = Rat.atom(("loopvar", it_term))
+            else:
+                self._bind_pattern(target, Rat.atom(("loopvar", it_term)), binds)
+        return it_term, binds
+
+    def _bind_pattern(self, t, v, binds):
+        if isinstance(t, ast.Name):
+            binds[t.id] = v
+        elif isinstance(t, (ast.Tuple, ast.List)):
+            term = as_term(v)
+            for i, e in enumerate(t.elts):
+                self._bind_pattern(e, Rat.atom(("item", term, i)), binds)
+        else:
+            raise Unreadable("loop target")
+
     def _swap_idiom(self, st: ast.If, env, ctx):
         """`if a > b: (a, b) = (b, a)` -> a = min(a, b), b = max(a, b) (and the `<` mirror)."""
         if st.orelse or len(st.body) != 1 or not isinstance(st.body[0], ast.Assign):
@@ -538,23 +704,13 @@ class Evaluator:
 
     def _exec_for(self, st: ast.For, conds, env, ctx):
         """Accumulation loops: `for x in it: acc += f(x)` (one or more accumulators, optional filter `if`)."""
-        its = self.ev(st.iter, env, ctx)
-        if len(its) != 1 or its[0][0]:
-            raise Unreadable("conditional iterable")
-        it_term = as_term(its[0][1])
-        # loop variables
+        it_term, binds = self.iter_binding(st.iter, st.target, env, ctx)
         lv_env = dict(env)
-        names = []
+        lv_env.update(binds)
+        names = list(binds)
 
         def bindvars(t, idx=()):
-            if isinstance(t, ast.Name):
-                lv_env[t.id] = Rat.atom(("loopvar", it_term, idx))
-                names.append(t.id)
-            elif isinstance(t, ast.Tuple):
-                for i, e in enumerate(t.elts):
-                    bindvars(e, idx + (i,))
-            else:
-                raise Unreadable("loop target")
+            return None
 
         bindvars(st.target)
         if st.orelse:
@@ -577,7 +733,7 @@ class Evaluator:
                 else:
                     out.append((conds | cc, env, None))
             return out
-        if self.effects_mode and ctx.depth == 0 and self._has_effects(st.body):
+        if self.effects_mode and ctx.fx and self._has_effects(st.body):
             inner_env = dict(lv_env)
             inner_env["$fx"] = ()
             inner = self.exec_block(list(st.body), [(frozenset(), inner_env, None)], ctx)
@@ -624,6 +780,15 @@ class Evaluator:
                     raise Unreadable("loop filter (disjunctive)")
                 filt |= fl[0]
                 continue
+            if isinstance(b, ast.Assign) and len(b.targets) == 1 and isinstance(b.targets[0], ast.Name) \
+                    and b.targets[0].id in env and b.targets[0].id not in names and isinstance(b.value, ast.BinOp) \
+                    and isinstance(b.value.op, ast.Add):
+                # `acc = acc + e` / `acc = e + acc`
+                tname = b.targets[0].id
+                if isinstance(b.value.left, ast.Name) and b.value.left.id == tname:
+                    b = ast.copy_location(ast.AugAssign(target=ast.Name(id=tname, ctx=ast.Store()), op=ast.Add(), value=b.value.right), b)
+                elif isinstance(b.value.right, ast.Name) and b.value.right.id == tname:
+                    b = ast.copy_location(ast.AugAssign(target=ast.Name(id=tname, ctx=ast.Store()), op=ast.Add(), value=b.value.left), b)
             if isinstance(b, ast.AugAssign) and isinstance(b.op, ast.Add) and isinstance(b.target, ast.Name) \
                     and b.target.id in env and b.target.id not in names:
                 vs = self.ev(b.value, lv_env, ctx)
@@ -645,7 +810,7 @@ class Evaluator:
                         raise NeedSplit(sorted(cnd, key=repr)[0])
                 if len(vs) != 1 or vs[0][0]:
                     raise Unreadable("conditional loop local")
-                self.bind(tg, vs[0][1], lv_env, Ctx(ctx.f, ctx.depth + 100, ctx.selfcls))
+                self.bind(tg, vs[0][1], lv_env, Ctx(ctx.f, ctx.depth, ctx.selfcls, fx=False))
                 for nn in ast.walk(tg):
                     if isinstance(nn, ast.Name):
                         names.append(nn.id)
@@ -688,7 +853,7 @@ class Evaluator:
             env[t.value.id] = Obj(o.cls, nf)
             env.pop("@" + ast.unparse(t), None)
         elif isinstance(t, (ast.Attribute, ast.Subscript)):
-            if self.effects_mode and ctx.depth == 0:
+            if self.effects_mode and ctx.fx:
                 delta = None
                 if stmt is not None and isinstance(stmt, ast.AugAssign):
                     da = self.ev(stmt.value, env, ctx)
@@ -702,8 +867,13 @@ class Evaluator:
                 except Unreadable:
                     cur = None
                 self._fx(env, ("store", self._target_term(t, env, ctx), how, v if delta is None else delta, cur))
-            # store into an object: remember by source text (used for simple local state like `result.x = ...`)
-            env["@" + ast.unparse(t)] = v
+            # store into an object: remember by source text (used for simple local state like `result.x = ...`);
+            # a record object stored into a state location is afterwards reached through the location (so that
+            # `self.d[k].f += x` and `p = self.d[k]; p.f += x` are the same effect)
+            if isinstance(v, Obj):
+                env.pop("@" + ast.unparse(t), None)
+            else:
+                env["@" + ast.unparse(t)] = v
         else:
             raise Unreadable("assignment target")
 
@@ -764,9 +934,17 @@ class Evaluator:
                         if isinstance(op, (ast.Eq, ast.NotEq)) and isinstance(l, Lit) and isinstance(r, Lit):
                             out.append((cs, [((l.v == r.v) == isinstance(op, ast.Eq), frozenset())]))
                             continue
-                        term = ("cmp", type(op).__name__, as_term(l), as_term(r))
-                        c = Cond("true", term)
-                        out.append((cs, self._split(c)))
+                        POS = {"NotIn": "In", "IsNot": "Is", "NotEq": "Eq"}
+                        opn = type(op).__name__
+                        neg = opn in POS
+                        lt, rt = as_term(l), as_term(r)
+                        if POS.get(opn, opn) in ("Is", "Eq") and repr(lt) > repr(rt):
+                            lt, rt = rt, lt  # symmetric operators: canonical operand order
+                        c = Cond("true", ("cmp", POS.get(opn, opn), lt, rt))
+                        sp = self._split(c)
+                        if neg:
+                            sp = [(not t, cc) for t, cc in sp]
+                        out.append((cs, sp))
                         continue
                     c = cmp_cond(op, l, r)
                     t = const_truth(c)
@@ -983,6 +1161,12 @@ class Evaluator:
                         if isinstance(inner, tuple) and inner[0] == "objdict":
                             return [(frozenset(), inner[1])]
                         return [(frozenset(), it)]
+                    # {k: d[k] for k in d}
+                    src = g[0].iter
+                    if isinstance(g[0].target, ast.Name) and isinstance(node.key, ast.Name) and node.key.id == g[0].target.id \
+                            and isinstance(node.value, ast.Subscript) and ast.dump(node.value.value) == ast.dump(src) \
+                            and isinstance(node.value.slice, ast.Name) and node.value.slice.id == g[0].target.id:
+                        return [(frozenset(), it)]
             raise Unreadable("dict comprehension")
         raise Unreadable(f"expression {type(node).__name__}: {ast.unparse(node)[:60]} in {ctx.f.qualname}")
 
@@ -990,22 +1174,9 @@ class Evaluator:
         if len(node.generators) != 1:
             raise Unreadable("nested comprehension")
         g = node.generators[0]
-        its = self.ev(g.iter, env, ctx)
-        if len(its) != 1 or its[0][0]:
-            raise Unreadable("conditional iterable")
-        it_term = as_term(its[0][1])
+        it_term, binds = self.iter_binding(g.iter, g.target, env, ctx)
         e2 = dict(env)
-
-        def bindvars(t, idx=()):
-            if isinstance(t, ast.Name):
-                e2[t.id] = Rat.atom(("loopvar", it_term, idx))
-            elif isinstance(t, ast.Tuple):
-                for i, e in enumerate(t.elts):
-                    bindvars(e, idx + (i,))
-            else:
-                raise Unreadable("comprehension target")
-
-        bindvars(g.target)
+        e2.update(binds)
         filt = frozenset()
         for cnd in g.ifs:
             fc = self.cond_alts(cnd, e2, ctx)
@@ -1229,6 +1400,19 @@ class Evaluator:
                 alts = nxt
             return alts
 
+        # map(lambda x: e, it) / filter(lambda x: c, it): the comprehension they denote
+        if isinstance(node.func, ast.Name) and node.func.id in ("map", "filter") and node.func.id not in env \
+                and len(node.args) == 2 and isinstance(node.args[0], ast.Lambda) and len(node.args[0].args.args) == 1:
+            lam = node.args[0]
+            tgt = ast.Name(id=lam.args.args[0].arg, ctx=ast.Store())
+            if node.func.id == "map":
+                comp = ast.GeneratorExp(elt=lam.body, generators=[ast.comprehension(target=tgt, iter=node.args[1], ifs=[], is_async=0)])
+            else:
+                comp = ast.GeneratorExp(elt=ast.Name(id=lam.args.args[0].arg, ctx=ast.Load()),
+                                        generators=[ast.comprehension(target=tgt, iter=node.args[1], ifs=[lam.body], is_async=0)])
+            ast.copy_location(comp, node)
+            ast.fix_missing_locations(comp)
+            return [(frozenset(), self.comp(comp, env, ctx))]
         # callee
         fv = None
         if isinstance(node.func, ast.Name):
@@ -1303,6 +1487,9 @@ class Evaluator:
             if v.is_const():
                 cv = v.const_value()
                 return [(frozenset(), Rat.const(int(cv)))]
+            a_ = v.single_atom()
+            if isinstance(a_, tuple) and a_ and a_[0] in ("floor", "int", "round0"):
+                return [(frozenset(), v)]   # already integer-valued
             return [(frozenset(), Rat.atom(("int", v)) if not self.int_is_floor else floor_of(v))]
         if short in ("min", "max") and not isinstance(fv, FuncRef):
             if len(pos) >= 2:
@@ -1324,6 +1511,9 @@ class Evaluator:
         if short == "any" and len(pos) == 1 and isinstance(pos[0], Seq) and isinstance(pos[0].elt, BoolElt) and not isinstance(fv, FuncRef):
             c = Cond("true", ("any", pos[0].it, frozenset(pos[0].elt.conds | pos[0].filt)))
             return [(cc, Lit(truth)) for truth, cc in self._split(c)]
+        if short == "len" and len(pos) == 1 and isinstance(pos[0], Seq) and not isinstance(fv, FuncRef):
+            t = ("sum", pos[0].it, Rat.const(1)) if not pos[0].filt else ("sum", pos[0].it, Rat.const(1), pos[0].filt)
+            return [(frozenset(), Rat.atom(t))]
         if short == "len" and len(pos) == 1:
             return [(frozenset(), Rat.atom(("len", as_term(pos[0]))))]
         if short == "round" and not isinstance(fv, FuncRef):
@@ -1356,12 +1546,13 @@ class Evaluator:
             if f.qualname in self.opaque or f.name in self.opaque or ctx.depth >= MAX_DEPTH:
                 params = f.params[1:] if (f.is_method or f.is_classmethod) else list(f.params)
                 bound = {}
-                for p, v in zip(params, pos):
-                    bound[p] = v
-                bound.update(kw)
-                extra = tuple(as_term(v) for v in pos[len(params):])
-                return [(frozenset(), Rat.atom(("call", f.qualname) + tuple((k, as_term(v)) for k, v in sorted(bound.items()))
-                                                + extra))]
+                for i, v in enumerate(pos):
+                    bound[i] = v
+                for k_, v in kw.items():
+                    bound[params.index(k_) if k_ in params else k_] = v
+                # canonical in parameter names: arguments are identified by position
+                return [(frozenset(), Rat.atom(("call", f.qualname) + tuple((k_, as_term(v)) for k_, v in
+                                                                             sorted(bound.items(), key=lambda kv: str(kv[0])))))]
             return self.inline_alts(f, fv.selfv, fv.selfcls, pos, kw, ctx, node)
         if isinstance(fv, ClsRef):
             return [(frozenset(), self.construct(fv.cls, pos, kw, ctx))]
@@ -1430,12 +1621,14 @@ class Evaluator:
 
 
 class Ctx:
-    __slots__ = ("f", "depth", "selfcls")
+    __slots__ = ("f", "depth", "selfcls", "fx")
 
-    def __init__(self, f: FuncInfo, depth: int, selfcls=None):
+    def __init__(self, f: FuncInfo, depth: int, selfcls=None, fx=None):
         self.f = f
         self.depth = depth
         self.selfcls = selfcls
+        # are effects of this frame recorded?  (the analysed function, and helpers it calls at statement level)
+        self.fx = (depth == 0) if fx is None else fx
 
 
 class Lit:
@@ -1700,6 +1893,73 @@ def _val_eq(a, b) -> bool:
     return a == b
 
 
+_SELF_ONLY = {}
+
+
+def _self_only_key(k) -> bool:
+    if not (isinstance(k, str) and k.startswith("@self.")):
+        return False
+    r = _SELF_ONLY.get(k)
+    if r is None:
+        try:
+            r = {n.id for n in ast.walk(ast.parse(k[1:], mode="eval")) if isinstance(n, ast.Name)} == {"self"}
+        except SyntaxError:
+            r = False
+        _SELF_ONLY[k] = r
+    return r
+
+
+def simplify_under(v, conds):
+    """Rewrite abs / min / max atoms whose case is decided by the guards `conds` (so that `a-b if a>b else b-a`,
+    written as an if/else statement on one side and as abs() on the other, compare equal)."""
+    if not isinstance(v, Rat):
+        if isinstance(v, Tup):
+            return Tup([simplify_under(x, conds) for x in v.items])
+        if isinstance(v, Obj):
+            return Obj(v.cls, {k: simplify_under(x, conds) for k, x in v.fields.items()})
+        return v
+    atoms = [a for a in v.atoms() if isinstance(a, tuple) and a and a[0] in ("abs", "min", "max")]
+    if not atoms:
+        return v
+    known = {}
+    for c in conds:
+        if c.op in ("<", "<=") and isinstance(c.x, Rat):
+            known[c.x.key()] = c.op
+
+    def neg_or_zero(x: Rat):  # x <= 0 known ?
+        return x.key() in known
+
+    sub = {}
+    for a in atoms:
+        if a[0] == "abs":
+            x = a[1]
+            if neg_or_zero(-x):      # -x <= 0  => x >= 0
+                sub[a] = x
+            elif neg_or_zero(x):     # x <= 0
+                sub[a] = -x
+        else:
+            items = list(a[1])
+            if len(items) == 2:
+                p, q = items
+                if neg_or_zero(p - q):      # p <= q
+                    sub[a] = p if a[0] == "min" else q
+                elif neg_or_zero(q - p):
+                    sub[a] = q if a[0] == "min" else p
+    if not sub:
+        return v
+
+    def sp(poly):
+        out = Rat.const(0)
+        for m, c in poly.t.items():
+            term = Rat.const(c)
+            for at, e in m:
+                base = sub[at] if at in sub else Rat.atom(at)
+                term = term * (base ** e)
+            out = out + term
+        return out
+    return sp(v.n) / sp(v.d)
+
+
 def compatible(c1: frozenset, c2: frozenset) -> bool:
     """Can the two guard conjunctions hold together?  (Over-approximation: only syntactic contradictions are found.)"""
     return not _contradict(c1 | c2)
@@ -1711,8 +1971,28 @@ def pairwise_conflict(paths_a, paths_b, same_outcome):
     for (ca, oa) in paths_a:
         for (cb, ob) in paths_b:
             if not same_outcome(oa, ob) and compatible(ca, cb):
+                both = ca | cb
+                try:
+                    # guards mentioning abs/min/max whose case the other guards decide
+                    simp = frozenset(Cond(c.op, simplify_under(c.x, both - {c})) if isinstance(c.x, Rat) else c for c in both)
+                    if simp != both and _contradict(simp):
+                        continue
+                except Exception:
+                    pass
+                try:
+                    sa, sb = _simplify_outcome(oa, both), _simplify_outcome(ob, both)
+                    if same_outcome(sa, sb):
+                        continue
+                except Exception:
+                    pass
                 return (ca, oa), (cb, ob)
     return None
+
+
+def _simplify_outcome(o, conds):
+    if isinstance(o, tuple) and len(o) == 2 and isinstance(o[0], frozenset):
+        return (o[0], simplify_under(o[1], conds))      # (effects signature, result): effects are compared as text
+    return simplify_under(o, conds)
 
 
 def same_function(p1, p2):
